@@ -16,7 +16,7 @@ claimed = {
    text="Static lockset analysis decides, for all schedules, that every access to MapPollard's guarded fields (direct or through the Nodes/CachedLeaves "
         "interfaces) is made under the required RWMutex mode on every path, that no lock holder re-enters the lock, that each exported call is one "
         "critical section - counting the sections of the functions it calls, so a query assembled from separately locked getters is refused - that every return releases exactly what it holds, and that the mutex of a live instance is never replaced. Sufficient for data-race freedom and whole-block visibility through "
-        "the package's own code; correctness of the returned values is not decided.",
+        "the package's own code, and that a function which acquires the lock and makes any call inside the section releases it with defer (a recovered panic in the user's node store or stream must not leave the lock held); correctness of the returned values is not decided.",
    ref="DESIGN.md 5/C12, engine E4",
    technique="static lockset / typestate dataflow over go/ssa CFGs with interprocedural lock requirements (custom analyzer)"),
 }
@@ -25,7 +25,7 @@ claimed["C13"] = dict(
    text="Static io-discipline analysis over the whole (de)serialization closure decides, for every reader chunking, truncation point and writer failure "
         "offset at once, that no stream is consumed with a short-read-unsafe Read, that every I/O or nested error leaves the function as a non-nil error "
         "(callbacks included; only io.EOF at a record boundary may become success), that every operation's byte count reaches the returned total, that no fallible call is deferred (its error could never reach the caller), that "
-        "each restore function succeeds only behind a post-read consistency test, that the restored object carries the constructor's configuration, that a record buffer reused across records has every byte it assigns assigned on every path to the write, that the caller's reader is never handed to a wrapper that may read ahead of the reported count, that the end of the stream is never turned into success (the formats announce their record counts), that failing returns report the running byte total, and that each operation's count is added to that total before the error test that follows it (so the bytes a failing operation did transfer are reported). Round-trip equality of the restored forest is not decided.",
+        "each restore function succeeds only behind a post-read consistency test, that the restored object carries the constructor's configuration, that a record buffer reused across records has every byte it assigns assigned on every path to the write, that the caller's reader is never handed to a wrapper that may read ahead of the reported count, that the end of the stream is never turned into success (the formats announce their record counts), that failing returns report the running byte total, and that each operation's count is added to that total before the error test that follows it (so the bytes a failing operation did transfer are reported), that the restore loops of the map forest store every record they read and take over the header fields of the stream on every path, and that a memoized size would be reset by every method that changes the forest. Round-trip equality of the restored forest is not decided.",
    ref="DESIGN.md 5/C13, engines E6+E2",
    technique="static error-propagation (dominance/region analysis on go/ssa), who-may-call rule for raw Read, typed-AST count accumulation, must-pass-through gate (custom analyzer)")
 
@@ -86,7 +86,7 @@ claimed["C09"] = dict(
         "no other caller of the storing function than the documented unverified entry), that the pruning primitive never receives a position that could be a root; that a "
         "function switching TotalRows finishes every translation from the old TotalRows first; that Prune clears the keep flag of a leaf it un-indexes on every continuing path; that a "
         "moved node is re-inserted on every path that deletes it; and (layout analysis) that everything stored, fetched, indexed or fed to position arithmetic is in the coordinate "
-        "system of the accompanying forest height; and that the keep flag stored with a node in a loop is computed for that position, never carried over from an earlier one; the from-roots constructor stores every root it is given; a node whose hash was just recomputed never inherits the keep flag of another node. Truth of stored hashes through moves (arithmetic), minimality and provability of the cache are not decided.",
+        "system of the accompanying forest height; and that the keep flag stored with a node in a loop is computed for that position, never carried over from an earlier one; the from-roots constructor stores every root it is given; a node whose hash was just recomputed never inherits the keep flag of another node; the deletion-undo moves climbed subtrees back under the existence test of the sibling position, never under a node-store look-up. Truth of stored hashes through moves (arithmetic), minimality and provability of the cache are not decided.",
    ref="DESIGN.md 5/C09, engine E2",
    technique="static dominance/guard rules, who-may-call, must-pass-through pairing rules and coordinate-layout abstract interpretation on go/ssa (custom analyzer)")
 
@@ -94,7 +94,7 @@ claimed["C15"] = dict(
    text="Static guard and dataflow rules on the schedule generator decide, for all histories and limits, the memory bound clause: the working cache grows only "
         "under a strict len(cache) < maxMemory test on the value appended to or right after a one-element removal, and every scheduled position is read from that "
         "cache; the ordering clause: each row is sorted after its last append; and three conditions of completeness: recorded deletions are sorted ascending before de-twinning, "
-        "every recorded root state has the block's deletions applied, the TTL table is recomputed before it is read, tree/branch detection with a discarded error is applied to a tracked position only behind an exact existence test, generating a schedule never writes through a recorded list or an alias of it, no allocation is sized by the memory limit, a list a helper returns resized is taken from its result, and the tracker's simulation of the empty roots that additions write over agrees in control structure with the verifier's clone of it. That positions are the right insertion slots and uniqueness are not decided.",
+        "every recorded root state has the block's deletions applied, the TTL table is recomputed before it is read, tree/branch detection with a discarded error is applied to a tracked position only behind an exact existence test, generating a schedule never writes through a recorded list or an alias of it, no allocation is sized by the memory limit, a list a helper returns resized is taken from its result, and the tracker's simulation of the empty roots that additions write over agrees in control structure with the verifier's clone of it, and every root a block empties is marked (no early exit from the outer marking loop). That positions are the right insertion slots and uniqueness are not decided.",
    ref="DESIGN.md 5/C15, engine E2",
    technique="static guard analysis on SSA values, value-web dataflow, must-pass-through rules and order-class dataflow (taint to requires-sorted sinks) on go/ssa (custom analyzer)")
 claimed["C01"] = dict(
@@ -147,7 +147,7 @@ claimed["C06"] = dict(
         "in the closure of the three Undo entries a caller never drops the updated list a helper returns while it goes on using the list it passed in (each undo step sees what the "
         "previous one left); every undone addition leaves the leaf index; a node moved back is re-inserted on every path that deletes it; the undone block's targets are used in "
         "the layout of the forest before the block and hashes are paired with positions of one order class; each forest's Undo runs its undo-one-addition step - which decrements "
-        "the leaf count on every success path - on every iteration of a loop bounded by the block's number of additions; a proof-hash list the undo allocates itself is filled before the hashing core sees it; a root position the map forest's undo re-creates gets its node back (by the add-undo step or by the closing write-back of the previous roots).",
+        "the leaf count on every success path - on every iteration of a loop bounded by the block's number of additions; a proof-hash list the undo allocates itself is filled before the hashing core sees it; a root position the map forest's undo re-creates gets its node back (by the add-undo step or by the closing write-back of the previous roots); the deletion-undo moves climbed subtrees back under the existence test of the sibling position, never under a node-store look-up.",
    ref="DESIGN.md 5/C06, engines E2+E7",
    technique="static dataflow (dropped-result / later-use analysis), must-pass-through and dominance rules on go/ssa, order-class and coordinate-layout abstract interpretation (custom analyzer)")
 
@@ -156,7 +156,7 @@ claimed["C08"] = dict(
         "all inputs, as necessary conditions: in (*Proof).Undo and everything it reaches hashes are paired with positions of one order class and caller order never reaches a "
         "requires-sorted sink; the updated lists returned by the undo helpers are taken over by the caller; the block's additions are reverted before its deletions and the deletion "
         "step works with the leaf count before the additions (numLeaves - numAdds); within one function the elements of a position list that is never written are read with one leaf count only "
-        "(a contradiction there is the known finding F2: undoAdd drops live leaves when the block destroyed empty roots); an existence decision made with maxPositionAtRow is dominated by a test that the forest had leaves; de-twinning inserts the parent of a sibling pair in order.",
+        "(a contradiction there is the known finding F2: undoAdd drops live leaves when the block destroyed empty roots); an existence decision made with maxPositionAtRow is dominated by a test that the forest had leaves; de-twinning inserts the parent of a sibling pair in order; a slice filled slot by slot from another list is not read again after that list was reordered.",
    ref="DESIGN.md 5/C08, engines E2+E7",
    technique="static dominance / dataflow rules on go/ssa and order-class abstract interpretation (custom analyzer)")
 
